@@ -199,7 +199,7 @@ def run(F, R, ctx):
     R.inst("C04.c", "Heap::mark / host roots (GLOBAL_ROOTS)", host,
            "Heap::mark no longer reads the host root table: values rooted by the embedder (RootedSteelVal) are reclaimed",
            mark.loc(), sample=True)
-    R.inst("C04.c", "Heap::mark / other threads' stacks", bool(mark.call_blocks(r"\{impl Synchronizer\}::enumerate_stacks$")),
+    R.inst("C04.c", "Heap::mark / other threads' stacks", bool(mark.call_blocks(r"\{impl Synchronizer\}::enumerate_stacks$", wrappers=True)),
            "Heap::mark no longer calls Synchronizer::enumerate_stacks: other threads' stacks are not roots", mark.loc())
     es = F.one(r"\{impl Synchronizer\}::enumerate_stacks$")
     rd = hm.fields_read(F, es, depth=1)
